@@ -168,6 +168,13 @@ fn apply_call(s: &mut Summary, call: &[u8]) -> Option<()> {
             set_arr(s, var, &items);
         }
         3 => push(s, var, std::str::from_utf8(payload).ok()?),
+        4 => {
+            // an observation in the middle of the history: print the entry and read every
+            // getter, discard the results (what is printed LATER must not depend on it)
+            let _ = s.to_string();
+            let _ = getters(s);
+            let _ = s.is_completed();
+        }
         _ => return None,
     }
     Some(())
